@@ -117,42 +117,6 @@ theorem hook_gate_global (env : Env) (O : Oracle σ) (w : World σ) (logs : List
   simp only [step, postTx]
   rcases hoff with h | h <;> simp [h]
 
-/-- a log emitted by the contract of a pair that is toggled off is not a conversion candidate -/
-theorem hookTarget_pair_disabled {env : Env} {s : State} {l : Log} {i : PairId} {p : Pair}
-    (hi : get? s.reg.byAddr l.emitter = some i) (hp : s.reg.getPair i = some p) (hoff : p.enabled = false) :
-    hookTarget env s l = none := by
-  unfold hookTarget
-  split; · rfl
-  split; · rfl
-  split; · rfl
-  split; · rfl
-  simp only [hi, hp]
-  split; · rfl
-  simp [hoff]
-
-/-- a log that does not go to the module address is not a conversion candidate (whatever the switches) -/
-theorem hookTarget_not_to_module {env : Env} {s : State} {l : Log} (hto : l.to ≠ env.modAddr) :
-    hookTarget env s l = none := by
-  unfold hookTarget
-  split; · rfl
-  split; · rfl
-  split; · rfl
-  split; · rfl
-  split; · rfl
-  split; · rfl
-  first | rfl | rw [if_pos hto]
-
-theorem hookLogs_no_target {env : Env} {O : Oracle σ} (logs : List Log) : ∀ (w : World σ),
-    (∀ l ∈ logs, hookTarget env w.st l = none) → hookLogs env O w logs = .ok w := by
-  induction logs with
-  | nil => intro w _; rfl
-  | cons l ls ih =>
-    intro w h
-    have h1 : hookLog env O w l = .ok w := by
-      unfold hookLog; rw [h l (List.mem_cons_self ..)]
-    simp only [hookLogs, h1]
-    exact ih w (fun l' hl' => h l' (List.mem_cons_of_mem _ hl'))
-
 /-- **hook_gate (pair switch).**  A receipt all of whose logs are gated — emitted by contracts of
 toggled-off pairs, or not addressed to the module — converts nothing; the hook returns no error. -/
 theorem hook_gate_pair (env : Env) (O : Oracle σ) (w : World σ) (logs : List Log)
@@ -223,30 +187,6 @@ theorem bankSoft_modToAcct_frame {env : Env} {b b' : Bank} {rcpt : Addr} {d0 : D
     exact flow_single_other_denom (d0 := d0) (by simp) hb d hne
   · cases h
   · injection h with h; subst h; exact denomFrame_refl _ _
-
-theorem hookTarget_some {env : Env} {s : State} {l : Log} {p : Pair} {v : Nat}
-    (h : hookTarget env s l = some (p, v)) :
-    ∃ i, get? s.reg.byAddr l.emitter = some i ∧ s.reg.getPair i = some p ∧ p.enabled = true ∧
-      l.to = env.modAddr ∧ 0 < v ∧ l.amount = some v := by
-  unfold hookTarget at h
-  split at h; · cases h
-  split at h; · cases h
-  split at h; · cases h
-  rename_i v' hv
-  split at h; · cases h
-  rename_i hv0
-  split at h; · cases h
-  rename_i i hi
-  split at h; · cases h
-  rename_i q hq
-  split at h; · cases h
-  rename_i hto
-  split at h; · cases h
-  rename_i hen
-  injection h with h
-  simp only [Prod.mk.injEq] at h
-  obtain ⟨rfl, rfl⟩ := h
-  exact ⟨i, hi, hq, by simpa using hen, by simpa using hto, Nat.pos_of_ne_zero hv0, hv⟩
 
 theorem hookLog_denom_frame {env : Env} {O : Oracle σ} {w w' : World σ} {l : Log}
     (hI : RegInv w.st.reg) {j : PairId} {q : Pair} (hq : w.st.reg.getPair j = some q) (hoff : q.enabled = false)
